@@ -1130,7 +1130,7 @@ func selectCaseEdge(sel *ssa.Select, k int) (from, to *ssa.BasicBlock) {
 				continue
 			}
 			cst, ok := bo.Y.(*ssa.Const)
-			if !ok || cst.Int64() != int64(k) {
+			if !ok || constInt64(cst) != int64(k) {
 				continue
 			}
 			for _, r3 := range *bo.Referrers() {
